@@ -45,3 +45,17 @@ func TestEventRootAgrees(t *testing.T) {
 		}
 	}
 }
+
+func TestStartP2P(t *testing.T) {
+	cfg := MenuConfig()
+	cfg.StartP2P = true
+	start := time.Now()
+	n, err := New(cfg)
+	if err != nil {
+		t.Fatal(err)
+	}
+	fmt.Println("start with p2p", time.Since(start))
+	n.Conn.BanPeer("nobody")
+	n.Close()
+	fmt.Println("total", time.Since(start))
+}
